@@ -403,6 +403,13 @@ func (e *Engine) modularCall(s *State, fr *Frame, c *FuncContract, key string, s
 			vtypes[n] = ptypes[i]
 		}
 	}
+	// the receiver of a method is always reachable as "recv" (its declared name is unknown for code outside the repository)
+	if sig.Recv() != nil && len(args) > 0 && len(ptypes) > 0 {
+		if _, ok := vars["recv"]; !ok {
+			vars["recv"] = args[0]
+			vtypes["recv"] = ptypes[0]
+		}
+	}
 	// implicit: non-nullable pointer params non-nil
 	for i, n := range names {
 		if i >= len(args) {
